@@ -86,7 +86,7 @@ impl Engine for C20 {
             Estimate::MultipleOf32Bit(n) => (n.max(1) as usize) << 32,
             Estimate::Abs(a) => a,
         };
-        let script = SourceScript { chunks: plan.chunks.clone(), eof_at: None, faults: vec![] };
+        let script = SourceScript { chunks: plan.chunks.clone(), eof_at: None, faults: vec![], pauses: vec![] };
         let mut rd = SimReader::new(&data, &script);
         let mut out: Vec<u8> = Vec::new();
         // the builder's RNG: the thread-local fastrand generator of the same crate instance
